@@ -14,8 +14,23 @@ use serde_json::{json, Value as J};
 
 pub const FRONT: &str = "---\n---\n";
 
+/// one symbol per character; a letter outside the table travels as its class: L2 / L3 / L4 (alphabetic, UTF-8 width),
+/// which is all the lexer and the parser look at (the judge sees the same symbol in the input and in the texts)
+fn sym_vec(s: &str) -> Vec<String> {
+    s.chars()
+        .map(|c| {
+            let k = char_to_sym(c);
+            if k.chars().count() == 1 && !c.is_ascii() && c.is_alphabetic() {
+                format!("L{}", c.len_utf8())
+            } else {
+                k
+            }
+        })
+        .collect()
+}
+
 fn syms(s: &str) -> J {
-    json!(str_to_syms(s))
+    json!(sym_vec(s))
 }
 
 fn text_rec(t: &Text) -> J {
@@ -93,89 +108,129 @@ fn diag(kind: &str, d: &SourceDiag) -> J {
     json!({"k": kind, "cls": parse_class(&d.message), "s": s, "e": e})
 }
 
+fn text_event(t: &Text) -> J {
+    json!({"k": "Text", "s": t.span().start(), "e": t.span().end(), "txt": syms(&t.text())})
+}
+
+fn ingredient_json(i: &Located<cooklang::parser::Ingredient>) -> J {
+    let sp = i.span();
+    let i = i.value();
+    let inter = match &i.intermediate_data {
+        None => json!([]),
+        Some(d) => json!([{"mode": format!("{:?}", d.value().ref_mode), "kind": format!("{:?}", d.value().target_kind),
+                           "val": syms(&d.value().val.to_string()), "s": d.span().start(), "e": d.span().end()}]),
+    };
+    json!({"k": "Ingredient", "s": sp.start(), "e": sp.end(), "mods": mods(*i.modifiers.value()),
+           "ms": i.modifiers.span().start(), "me": i.modifiers.span().end(), "inter": inter,
+           "name": text_rec(&i.name), "alias": opt_text(&i.alias), "q": quantity(&i.quantity), "note": opt_text(&i.note)})
+}
+
+fn cookware_json(c: &Located<cooklang::parser::Cookware>) -> J {
+    let sp = c.span();
+    let c = c.value();
+    let q = match &c.quantity {
+        None => json!([]),
+        Some(q) => json!([qvalue(q.span(), q.value(), json!([]))]),
+    };
+    json!({"k": "Cookware", "s": sp.start(), "e": sp.end(), "mods": mods(*c.modifiers.value()),
+           "ms": c.modifiers.span().start(), "me": c.modifiers.span().end(),
+           "name": text_rec(&c.name), "alias": opt_text(&c.alias), "q": q, "note": opt_text(&c.note)})
+}
+
+fn timer_json(t: &Located<cooklang::parser::Timer>) -> J {
+    let sp = t.span();
+    let t = t.value();
+    json!({"k": "Timer", "s": sp.start(), "e": sp.end(), "name": opt_text(&t.name), "q": quantity(&t.quantity)})
+}
+
+fn metadata_json(key: &Text, value: &Text) -> J {
+    json!({"k": "Metadata", "key": syms(&key.text()), "ks": key.span().start(), "ke": key.span().end(),
+           "val": syms(&value.text()), "vs": value.span().start(), "ve": value.span().end()})
+}
+
+fn section_json(name: &Option<Text>) -> J {
+    match name {
+        Some(n) => json!({"k": "Section", "has": true, "name": syms(&n.text()), "s": n.span().start(), "e": n.span().end()}),
+        None => json!({"k": "Section", "has": false, "name": [], "s": 0, "e": 0}),
+    }
+}
+
+/// build_ast over the same parser: the blocks in the shape of CookParser!AstOf
+pub fn ast(text: &str, ext: Extensions) -> J {
+    use cooklang::parser::{Block, Item};
+    match guarded(|| cooklang::ast::build_ast(PullParser::new(text, ext))) {
+        Err(p) => json!({"st": "panic", "blocks": [], "panic": panic_signature(&p)}),
+        Ok(r) => {
+            let blocks: Vec<J> = match r.output() {
+                None => vec![],
+                Some(a) => a
+                    .blocks
+                    .iter()
+                    .map(|b| match b {
+                        Block::Metadata { key, value } => metadata_json(key, value),
+                        Block::Section { name } => section_json(name),
+                        Block::Step { items } => json!({"k": "Step", "items": items.iter().map(|i| match i {
+                            Item::Text(t) => text_event(t),
+                            Item::Ingredient(c) => ingredient_json(c),
+                            Item::Cookware(c) => cookware_json(c),
+                            Item::Timer(c) => timer_json(c),
+                        }).collect::<Vec<_>>()}),
+                        Block::TextBlock(ts) => json!({"k": "TextBlock", "items": ts.iter().map(text_event).collect::<Vec<_>>()}),
+                    })
+                    .collect(),
+            };
+            json!({"st": "ok", "blocks": blocks, "ndiags": r.report().iter().count()})
+        }
+    }
+}
+
 pub fn event(ev: &Event) -> Option<J> {
     Some(match ev {
-        Event::YAMLFrontMatter(_) => return None,
-        Event::Metadata { key, value } => json!({"k": "Metadata", "key": syms(&key.text()), "ks": key.span().start(), "ke": key.span().end(),
-                                                  "val": syms(&value.text()), "vs": value.span().start(), "ve": value.span().end()}),
-        Event::Section { name } => match name {
-            Some(n) => json!({"k": "Section", "has": true, "name": syms(&n.text()), "s": n.span().start(), "e": n.span().end()}),
-            None => json!({"k": "Section", "has": false, "name": [], "s": 0, "e": 0}),
-        },
+        Event::YAMLFrontMatter(t) => json!({"k": "FrontMatter", "txt": syms(&t.text()), "s": t.span().start(), "e": t.span().end()}),
+        Event::Metadata { key, value } => metadata_json(key, value),
+        Event::Section { name } => section_json(name),
         Event::Start(b) => json!({"k": "Start", "b": if *b == BlockKind::Step { "Step" } else { "Text" }}),
         Event::End(b) => json!({"k": "End", "b": if *b == BlockKind::Step { "Step" } else { "Text" }}),
-        Event::Text(t) => json!({"k": "Text", "s": t.span().start(), "e": t.span().end(), "txt": syms(&t.text())}),
-        Event::Ingredient(i) => {
-            let sp = i.span();
-            let i = i.value();
-            let inter = match &i.intermediate_data {
-                None => json!([]),
-                Some(d) => json!([{"mode": format!("{:?}", d.value().ref_mode), "kind": format!("{:?}", d.value().target_kind),
-                                   "val": syms(&d.value().val.to_string()), "s": d.span().start(), "e": d.span().end()}]),
-            };
-            json!({"k": "Ingredient", "s": sp.start(), "e": sp.end(), "mods": mods(*i.modifiers.value()),
-                   "ms": i.modifiers.span().start(), "me": i.modifiers.span().end(), "inter": inter,
-                   "name": text_rec(&i.name), "alias": opt_text(&i.alias), "q": quantity(&i.quantity), "note": opt_text(&i.note)})
-        }
-        Event::Cookware(c) => {
-            let sp = c.span();
-            let c = c.value();
-            let q = match &c.quantity {
-                None => json!([]),
-                Some(q) => json!([qvalue(q.span(), q.value(), json!([]))]),
-            };
-            json!({"k": "Cookware", "s": sp.start(), "e": sp.end(), "mods": mods(*c.modifiers.value()),
-                   "ms": c.modifiers.span().start(), "me": c.modifiers.span().end(),
-                   "name": text_rec(&c.name), "alias": opt_text(&c.alias), "q": q, "note": opt_text(&c.note)})
-        }
-        Event::Timer(t) => {
-            let sp = t.span();
-            let t = t.value();
-            json!({"k": "Timer", "s": sp.start(), "e": sp.end(), "name": opt_text(&t.name), "q": quantity(&t.quantity)})
-        }
+        Event::Text(t) => text_event(t),
+        Event::Ingredient(i) => ingredient_json(i),
+        Event::Cookware(c) => cookware_json(c),
+        Event::Timer(t) => timer_json(t),
         Event::Error(d) => diag("Error", d),
         Event::Warning(d) => diag("Warning", d),
     })
 }
 
-pub fn run(text: &str, ext: Extensions) -> J {
-    match guarded(|| PullParser::new(text, ext).filter_map(|e| event(&e)).collect::<Vec<_>>()) {
+/// `front`: keep the front matter event (whole documents) or drop it (kernel inputs behind an empty front matter)
+pub fn run(text: &str, ext: Extensions, front: bool) -> J {
+    match guarded(|| PullParser::new(text, ext).filter_map(|e| event(&e)).filter(|e| front || e["k"] != "FrontMatter").collect::<Vec<_>>()) {
         Ok(evs) => json!({"st": "ok", "evs": evs}),
         Err(p) => json!({"st": "panic", "evs": [], "panic": panic_signature(&p)}),
     }
 }
 
-/// Where the Cooklang text starts when `text` has a front matter: read off the parser's own front matter event
-/// (its span is the YAML text; the closing fence line follows it).
-fn cooklang_offset(text: &str) -> Option<usize> {
-    let first = guarded(|| PullParser::new(text, Extensions::empty()).next()).ok().flatten()?;
-    let Event::YAMLFrontMatter(t) = first else { return None };
-    let fence = t.span().end();
-    Some(text[fence..].find('\n').map(|i| fence + i + 1).unwrap_or(text.len()))
-}
-
 pub fn main(args: &[String]) {
     let recs = read_ndjson(req_arg(args, "--in"));
-    // --whole: `text` is a whole document (chunks); the record gets `input` = the Cooklang part, one symbol per
-    // character, `base` = its byte offset and `osm`, so that the judge can run the specification on it itself
+    // --whole: `text` is a whole document (chunks); the record gets `input` = the text, one symbol per character, and
+    // `whole`, so that the judge runs the specification - front matter split included - on it itself
     let whole = args.iter().any(|a| a == "--whole");
     let mut out = Vec::with_capacity(recs.len());
     for mut r in recs {
         let ext = Extensions::from_bits_truncate(ext_bits_from_names(&r["ext"]));
-        let text = if whole {
+        if whole {
             let text = json_chunks_to_string(&r["text"]);
-            let base = cooklang_offset(&text);
-            r["input"] = json!(str_to_syms(&text[base.unwrap_or(0)..]));
-            r["base"] = json!(base.unwrap_or(0));
-            r["osm"] = json!(base.is_none());
+            r["input"] = json!(sym_vec(&text));
+            r["whole"] = json!(true);
+            r["osm"] = json!(true);
             r.as_object_mut().unwrap().remove("text");
-            text
+            r["obs"] = run(&text, ext, true);
+            r["obs"]["ast"] = ast(&text, ext);
         } else {
             let body = json_chunks_to_string(&r["input"]);
             let osm = r.get("osm").and_then(|v| v.as_bool()).unwrap_or(true);
-            if osm { body } else { format!("{FRONT}{body}") }
-        };
-        r["obs"] = run(&text, ext);
+            let text = if osm { body } else { format!("{FRONT}{body}") };
+            r["obs"] = run(&text, ext, false);
+            r["obs"]["ast"] = ast(&text, ext);
+        }
         out.push(r);
     }
     write_ndjson(req_arg(args, "--out"), &out);
